@@ -23,9 +23,6 @@ def evalOwn {τ : Type} (I : FunI F α) (s : St F τ α) (x : α) : Except (Exc 
   | .error e => .error e
   | .ok (fn, pl, v) => .ok ({ s with fn := fn, core := { s.core with params := pl } }, v)
 
-/-- `getParameters()[0].getValue()` -/
-def value0 (pl : PList α) : Option α := pl.head?.map (·.p.value)
-
 /-! ### GoldenSectionSearch -/
 
 structure Gss (α : Type) where
@@ -82,40 +79,33 @@ def gssPoll (s : St F (Gss α) α) : St F (Gss α) α :=
     { s' with core := { s'.core with tol := b } }
   else { s with core := { s.core with tol := false } }
 
+/-- the part common to the two branches of `doStep`: `getParameter_(0).setValue(x); tolIsReached_ =
+nbEval_ > 2 && getStopCondition()->isToleranceReached(); … getFunction()->f(getParameters())` -/
+def gssProbe (I : FunI F α) (s : St F (Gss α) α) (x : α) : Except (Exc × F) (St F (Gss α) α × α) :=
+  match setValueAt s.core.params 0 x with
+  | .error e => .error (e, s.fn)
+  | .ok pl =>
+    let s := gssPoll { s with core := { s.core with params := pl } }
+    match I.f s.fn s.core.params with
+    | .error e => .error e
+    | .ok (fn, v) => .ok ({ s with fn := fn }, v)
+
 /-- `GoldenSectionSearch::doStep` (GoldenSectionSearch.cpp:100-129) -/
 def gssDoStep (I : FunI F α) (s : St F (Gss α) α) : Except (Exc × F) (St F (Gss α) α × α) :=
   let s := { s with core := { s.core with nbEval := s.core.nbEval + 1 } }
   let g := s.ext
   if ltb g.f2 g.f1 then
-    -- shift(x0, x1, x2); x2 = R * x1 + C * x3
-    let x0 := g.x1
-    let x1 := g.x2
-    let x2 := goldR * x1 + goldC * g.x3
-    let s := { s with ext := { g with x0 := x0, x1 := x1, x2 := x2 } }
-    match setValueAt s.core.params 0 x2 with
-    | .error e => .error (e, s.fn)
-    | .ok pl =>
-      let s := gssPoll { s with core := { s.core with params := pl } }
-      match I.f s.fn s.core.params with
-      | .error e => .error e
-      | .ok (fn, v) =>
-        -- shift(f1, f2, f(...))
-        .ok ({ s with fn := fn, ext := { s.ext with f1 := s.ext.f2, f2 := v } }, v)
+    -- shift(x0, x1, x2); x2 = R * x1 + C * x3; … shift(f1, f2, f(...)); return f2
+    let x2 := goldR * g.x2 + goldC * g.x3
+    match gssProbe I { s with ext := { g with x0 := g.x1, x1 := g.x2, x2 := x2 } } x2 with
+    | .error e => .error e
+    | .ok (s, v) => .ok ({ s with ext := { s.ext with f1 := s.ext.f2, f2 := v } }, v)
   else
-    -- shift(x3, x2, x1); x1 = R * x2 + C * x0
-    let x3 := g.x2
-    let x2 := g.x1
-    let x1 := goldR * x2 + goldC * g.x0
-    let s := { s with ext := { g with x3 := x3, x2 := x2, x1 := x1 } }
-    match setValueAt s.core.params 0 x1 with
-    | .error e => .error (e, s.fn)
-    | .ok pl =>
-      let s := gssPoll { s with core := { s.core with params := pl } }
-      match I.f s.fn s.core.params with
-      | .error e => .error e
-      | .ok (fn, v) =>
-        -- shift(f2, f1, f(...))
-        .ok ({ s with fn := fn, ext := { s.ext with f2 := s.ext.f1, f1 := v } }, v)
+    -- shift(x3, x2, x1); x1 = R * x2 + C * x0; … shift(f2, f1, f(...)); return f1
+    let x1 := goldR * g.x1 + goldC * g.x0
+    match gssProbe I { s with ext := { g with x3 := g.x2, x2 := g.x1, x1 := x1 } } x1 with
+    | .error e => .error e
+    | .ok (s, v) => .ok ({ s with ext := { s.ext with f2 := s.ext.f1, f1 := v } }, v)
 
 def gssAlgo (I : FunI F α) (fuel : Nat) : Algo F (Gss α) α :=
   { doInit := gssDoInit I fuel,
